@@ -57,7 +57,7 @@ type Bundle struct {
 //
 // [1] https://wpack-wg.github.io/bundled-responses/draft-ietf-wpack-bundled-responses.html#signatures-section
 func (e *Exchange) AddPayloadIntegrity(ver version.Version, recordSize int) (string, error) {
-	if e.Response.Header.Get("Digest") != "" {
+	if len(e.Response.Header.Values("Digest")) != 0 {
 		return "", errors.New("bundle: the exchange already has the Digest: header")
 	}
 
